@@ -543,7 +543,7 @@ theorem emitted_c_inv {pcfg : Namespace.Cfg} {o : Opts} {t : Top} {incs : List S
 theorem emitted_cpp_inv {pcfg : Namespace.Cfg} {o : Opts} {t : Top} {incs : List Str}
     (h : emitted .cpp pcfg o t = .ok incs) :
     ∃ ps l, pathIncludes pcfg o (direct t) = .ok ps ∧ (∀ x, x ∈ l ↔ (x ∈ ps ∨ x ∈ cppGetIncludes o (direct t))) ∧
-      incs = l ++ cppPortBlock t.fixedPort l := by
+      incs = l ++ cppUnionBlock o t ++ cppPortBlock t.fixedPort l := by
   simp only [emitted] at h
   split at h
   · cases h
@@ -565,9 +565,9 @@ theorem mem_cppGetIncludes_vla {o : Opts} {d : Deps} (h : o.vlaInc ≠ []) (hv :
   simp [cppGetIncludes, cppGetIncludesWith, h, hv]
 
 /-- The fixed-port block makes sure `<cstdint>` is there. -/
-theorem cstdint_of_fixedPort (l : List Str) : hCstdint ∈ l ++ cppPortBlock true l := by
+theorem cstdint_of_fixedPort (l m : List Str) : hCstdint ∈ l ++ m ++ cppPortBlock true l := by
   by_cases h : hCstdint ∈ l
-  · exact List.mem_append.mpr (Or.inl h)
+  · exact List.mem_append.mpr (Or.inl (List.mem_append.mpr (Or.inl h)))
   · simp [cppPortBlock, h]
 
 /-! ## the union test of the fixed builder -/
